@@ -278,7 +278,8 @@ def known_findings(pid):
         paths += [os.path.join(fd, f) for f in sorted(os.listdir(fd)) if f.endswith(".json")]
     for p in paths:
         if os.path.exists(p):
-            out += [f for f in json.load(open(p)).get("findings", []) if f.get("property") == pid]
+            out += [f for f in json.load(open(p)).get("findings", [])
+                    if f.get("property") == pid or pid in f.get("also_properties", [])]
     return out
 
 
